@@ -29,13 +29,15 @@ def fencedStep (asg : List (Nat × Int)) (m : MStep) : Bool :=
   m.snap.cons.all fun c => !isRunning c ||
     (c.gen == m.snap.gen && c.member == m.snap.member && asg.contains (c.topic, c.part))
 
+/-- the assignment in force after a step: that of the sync reply, if the member processed one -/
+def nextAsg (asg : List (Nat × Int)) (m : MStep) : List (Nat × Int) :=
+  match m.ev with
+  | .syncDone (.ok a) => if m.obs == [.badOp] then asg else flatten a
+  | _ => asg
+
 def fencedFrom (asg : List (Nat × Int)) : List MStep → Bool
   | [] => true
-  | m :: ms =>
-    let asg' := match m.ev with
-      | .syncDone (.ok a) => if m.obs == [.badOp] then asg else flatten a   -- (a reply the member processed)
-      | _ => asg
-    fencedStep asg' m && fencedFrom asg' ms
+  | m :: ms => fencedStep (nextAsg asg m) m && fencedFrom (nextAsg asg m) ms
 
 def fenced (tr : List MStep) : Bool := fencedFrom [] tr
 
